@@ -382,7 +382,7 @@ pub fn res_str(r: &Result<String, String>) -> String {
     }
 }
 
-/// The canonical observation vector: to_string + build on the three backends, plus Debug.
+/// The canonical observation vector: to_string + build on the three backends.
 pub fn canon(s: &Stmt, live: bool) -> Vec<String> {
     let mut v = Vec::with_capacity(7);
     for b in BACKENDS {
@@ -395,7 +395,16 @@ pub fn canon(s: &Stmt, live: bool) -> Vec<String> {
             v.push(res_str(&observe_one(s, &o, live).out));
         }
     }
-    v.push(res_str(&guarded(|| s.debug())));
+    // Debug text is compared only where it is the *only* information available: families without
+    // renderer and PartialEq (TableIndex), and states of families without PartialEq that no
+    // backend can render (every rendering panicked). Elsewhere equality is `==` plus rendering, as the properties say:
+    // Debug may legitimately show internals (spare buffer contents, caches) invisible to both.
+    let unrenderable = v.iter().all(|x| x.starts_with("PANIC:"));
+    if s.family() == Family::TableIndex || (unrenderable && !s.family().has_eq()) {
+        v.push(res_str(&guarded(|| s.debug())));
+    } else {
+        v.push(String::from("-"));
+    }
     v
 }
 
